@@ -75,6 +75,29 @@ class SetTypes:
                     self.func_returns_set.add(f.node.name if "." in q else q)
 
     def local_sets(self, fnode, clsq):
+        """names that are set-typed inside fnode.  Returns a LocalSets: a name is set-typed at a use
+        if the textually closest preceding assignment is set-typed (or, with no preceding
+        assignment, if every assignment is)."""
+        base = self._local_sets_all(fnode, clsq)
+        ls = LocalSets(base)
+        for n in walk_no_nested(fnode):
+            if isinstance(n, ast.Assign):
+                for t in n.targets:
+                    if isinstance(t, ast.Name):
+                        ls.add(t.id, (n.end_lineno, n.end_col_offset), self.is_set(n.value, base, clsq))
+                    elif isinstance(t, (ast.Tuple, ast.List)):
+                        for e in t.elts:
+                            if isinstance(e, ast.Name):
+                                ls.add(e.id, (n.end_lineno, n.end_col_offset), False)
+            elif isinstance(n, ast.AnnAssign) and isinstance(n.target, ast.Name) and n.value is not None:
+                ls.add(n.target.id, (n.end_lineno, n.end_col_offset), self.is_set(n.value, base, clsq))
+            elif isinstance(n, (ast.For, ast.comprehension)):
+                for e in ast.walk(n.target):
+                    if isinstance(e, ast.Name):
+                        ls.add(e.id, (getattr(n, "lineno", 0) or getattr(n.target, "lineno", 0), getattr(n.target, "col_offset", 0)), False)
+        return ls
+
+    def _local_sets_all(self, fnode, clsq):
         """names that are set-typed at every assignment inside fnode"""
         cand = {}
         for _ in range(2):
@@ -121,6 +144,8 @@ class SetTypes:
         if isinstance(e, (ast.Set, ast.SetComp)):
             return True
         if isinstance(e, ast.Name):
+            if isinstance(loc, LocalSets):
+                return loc.is_set_at(e.id, (getattr(e, "lineno", 0), getattr(e, "col_offset", 0)))
             return e.id in loc
         if isinstance(e, ast.Attribute):
             if isinstance(e.value, ast.Name) and e.value.id == "self" and clsq is not None:
@@ -163,6 +188,29 @@ class SetTypes:
         if isinstance(e, ast.BoolOp):
             return all(self.is_set(v, loc, clsq) for v in e.values)
         return False
+
+
+class LocalSets:
+    def __init__(self, always):
+        self.always = set(always)
+        self.assigns = {}  # name -> sorted [(pos, isset)]
+
+    def add(self, name, pos, isset):
+        self.assigns.setdefault(name, []).append((pos, bool(isset)))
+
+    def __contains__(self, name):
+        return name in self.always
+
+    def is_set_at(self, name, pos):
+        if name in self.always:
+            return True
+        lst = self.assigns.get(name)
+        if not lst:
+            return False
+        prev = [x for x in lst if x[0] < pos]
+        if not prev:
+            return False
+        return max(prev)[1]
 
 
 _ST_CACHE = {}
@@ -270,7 +318,7 @@ def find_sites(repo, mod):
                         out.append((f, kind, g.iter, f"{kind} over {norm(g.iter)}: {norm(n)[:70]}", sens))
             elif isinstance(n, ast.Call):
                 cn = call_name(n) or ""
-                short = cn.rsplit(".", 1)[-1]
+                short = cn.rsplit(".", 1)[-1] or (last_attr(n) or "")
                 if short in ORDERED_CONSUMERS and n.args and st.is_set(n.args[0], loc, clsq) and isinstance(n.func, ast.Name):
                     # sorted(list(S)) etc. are fine
                     p = parent(n)
@@ -298,4 +346,16 @@ def find_sites(repo, mod):
                 for k in n.keywords:
                     if k.arg == "key" and isinstance(k.value, ast.Name) and k.value.id in ("id", "hash"):
                         out.append((f, "sortkey", n, f"sort key={k.value.id}", True))
-    return out
+    # diagnostics: a consumption whose enclosing statement is a raise or a logging call is not output
+    from ..core import enclosing_stmt
+
+    res = []
+    for (f, kind, e, text, sens) in out:
+        if sens:
+            st_ = enclosing_stmt(e)
+            if isinstance(st_, ast.Raise):
+                sens = False
+            elif isinstance(st_, ast.Expr) and isinstance(st_.value, ast.Call) and (call_name(st_.value) or "").split(".")[0] in ("log", "logger", "logging", "warnings", "print"):
+                sens = False
+        res.append((f, kind, e, text, sens))
+    return res
